@@ -507,7 +507,7 @@ def corpus():
 
 
 def run(ctx):
-    n = {'quick': 1100, 'thorough': 30000}[ctx.tier]
+    n = {'quick': 1000, 'thorough': 30000}[ctx.tier]
     rng = ctx.rng('rotate')
     rr = ctx.rng('registered')
     # registered-event cases are spread evenly among the general ones, so that a time-boxed run (escalation after a
